@@ -153,28 +153,16 @@ def afterDeclEnd : List Nat → Option (List Nat)
   | [_] => none
   | a :: b :: rest => if a = 63 ∧ b = 62 then some rest else afterDeclEnd (b :: rest)
 
-/-- `s.replace(pat, "")` for a non-empty `pat`: left to right, non-overlapping. -/
-def removeAllGo (pat : List Nat) : Nat → List Nat → List Nat
-  | _, [] => []
-  | k + 1, _ :: rest => removeAllGo pat k rest
-  | 0, c :: rest =>
-    if pat.isPrefixOf (c :: rest) then removeAllGo pat (pat.length - 1) rest
-    else c :: removeAllGo pat 0 rest
-
-def removeAll (pat s : List Nat) : List Nat := removeAllGo pat 0 s
-
 def sXmlDeclStart : List Nat := [60, 63, 120, 109, 108]     -- <?xml
 
-/-- What is spliced into the SOAP body: the message without its XML declaration (and the white
-    space after it), and without any further occurrence of `PREFIX`. -/
+/-- What is spliced into the SOAP body: the message without its leading XML declaration (and the
+    white space after it); nothing else is touched. -/
 def stripDecl (t : List Nat) : List Nat :=
-  let t1 :=
-    if (t.take 5).map asciiLower = sXmlDeclStart then
-      match afterDeclEnd t with
-      | some r => r.dropWhile pyIsSpace
-      | none => t
-    else t
-  removeAll Gen.FormSpec.xmlPrefix t1
+  if (t.take 5).map asciiLower = sXmlDeclStart then
+    match afterDeclEnd t with
+    | some r => r.dropWhile pyIsSpace
+    | none => t
+  else t
 
 /-- `<ns0:Envelope xmlns:ns0="NAMESPACE" ><ns0:Body>` — what is left of ElementTree's serialisation of
     the envelope once the dummy namespace declaration and the dummy child are cut out. -/
